@@ -47,6 +47,13 @@ SMALL_CONTAINERS = [
 
 BASIS = ATOMS + SMALL_CONTAINERS
 
+# value sets that exist only in the inference space (C04/C05/C06 shared pass): same-named distinct classes
+INFER_ONLY_CASES = [
+    ["Dup1()", "Dup2()"], ["Dup2()", "Dup1()", "Dup1()"], ["[Dup1()]", "[Dup2()]"], ["[Dup1(), Dup2()]"], ["{'a': Dup1()}", "{'a': Dup2()}"],
+    ["{1: Dup1()}", "{1: Dup2()}"], ["(Dup1(),)", "(Dup2(),)"], ["Dup1", "Dup2"], ["{'a': Dup1(), 'b': 1}", "{'a': Dup2(), 'b': 1}"],
+    ["[{'a': Dup1()}, {'a': Dup2()}]"], ["{'k': [Dup1()]}", "{'k': [Dup2()]}"], ["Dup1()", "Dup2()", "1"], ["defaultdict(int, {'a': Dup1()})", "defaultdict(int, {'a': Dup2()})"],
+]
+
 
 def multisets(max_size, basis=None):
     basis = basis or BASIS
